@@ -11,6 +11,8 @@
 #include "ref/zckref.hpp"
 #include "lib/zcklib.hpp"
 #include "gen/gens.hpp"
+#include "gen/mutate.hpp"
+#include "ref/fields.hpp"
 
 using pbt::Ctx; using pbt::Bytes;
 
@@ -64,9 +66,31 @@ static Sample make_sample(Ctx &c) {
     s.desc = d.str(); return s;
 }
 
+// Converse direction ("opens ONLY IF stored == computed"): many multi-byte alterations of the header, re-sealed or
+// not, with the stored digest kept, damaged or recomputed; whenever the library opens the image the reference must
+// confirm that the stored checksum equals the one computed over the header bytes as the format specifies.
+static void converse(Ctx &c, const Sample &s) {
+    ref::ParseResult p0 = ref::parse(s.file); uint64_t n = 0, opened = 0; size_t rounds = c.tier ? 400 : 120;
+    for (size_t r = 0; r < rounds; r++) {
+        Bytes m; std::string how;
+        uint64_t k = c.draw(3);
+        if (k <= 1) {
+            ref::Fields F = ref::fields_from(p0.h); size_t nm = 1 + c.draw(2); for (size_t i = 0; i < nm; i++) how += gen::mutate_field(c, F) + "; ";
+            F.bad_checksum = k == 1 && c.boolean(); m = ref::emit(F);
+            if (k == 1 && !F.bad_checksum && m.size() >= p0.h.lead_size && ref::digest_size(p0.h.hash_type) > 0) { size_t ds = ref::digest_size(p0.h.hash_type); if (p0.h.lead_size >= ds && m.size() >= p0.h.lead_size) memcpy(m.data() + p0.h.lead_size - ds, p0.h.header_digest.data(), ds); how += "(original stored digest kept) "; }
+            m.insert(m.end(), s.file.begin() + std::min(s.file.size(), p0.h.total_size), s.file.end());
+        } else { m = s.file; size_t nm = 1 + c.draw(3); for (size_t i = 0; i < nm; i++) { Bytes hdr(m.begin(), m.begin() + std::min(m.size(), s.hdr_len)); how += gen::mutate_raw(c, hdr, hdr.size()) + "; "; Bytes rest(m.begin() + std::min(m.size(), s.hdr_len), m.end()); m = hdr; m.insert(m.end(), rest.begin(), rest.end()); } if (k == 3) { ref::reseal(m); how += "(re-sealed) "; } }
+        n++;
+        if (lib_opens_bytes(m)) { opened++; ref::ParseResult pr = ref::parse(m);
+            if (!pr.h.checksum_ok) { c.extra_evals = n; c.fail("opens-with-wrong-checksum", "an image opens although its stored header checksum is not the checksum of its header bytes [" + how + "] (reference: " + pr.reason + ")"); } }
+    }
+    c.desc << " converse-mode: " << n << " alterations, " << opened << " opened"; c.extra_evals = n; c.extra_distinct = n; c.nontrivial(); c.label("converse-mode");
+}
+
 static void prop(Ctx &c) {
     Sample s = make_sample(c);
     c.desc << s.desc;
+    if (c.chance(1, 3)) { converse(c, s); return; }
     int fd = lib::mkfd(s.file);
     if (!lib_opens(fd)) { close(fd); c.label("sample-not-opened"); c.desc << " (library refuses the unmutated sample)"; return; }
     c.label(s.desc.find("detached") != std::string::npos ? "detached" : "full");
